@@ -40,6 +40,20 @@ structure NormOf (Pts : Type) where
 structure Owned where
   m : Mat
 
+/-- `x.__class__` / `type(x)` of an alignment: the object it was read from (`cls.__new__(cls)` makes a blank one) -/
+structure ClsOf (Pts A : Type) where
+  o : Obj Pts A
+
+/-- `type(x.kernel)`: the kind of a kernel; calling it with the points of the inverse's source gives a kernel of the
+same kind centred there -/
+structure KernelCls where
+  kind : Option Nat
+
+/-- `target.norm() / source.norm()` in `procrustes_alignment`, by the two point sets -/
+structure RatioOf (Pts : Type) where
+  src : Pts
+  tgt : Pts
+
 def genDefault_procrustes_rotation : Bool :=
   true
 
@@ -126,8 +140,8 @@ def genBuildCoefficients (np : Np Pts A) (self : Obj Pts A) : Obj Pts A :=
   let u0 := p0.1
   let s0 := p0.2.1
   let v0 := p0.2.2
-  let keep0 := (np.keep s0 (self.minSV.getD genDefault_tps_min_singular_val))
-  let invl0 := (np.pinv u0 s0 v0 keep0)
+  let keep0 := (np.keep s0 (np.nBelow s0 (self.minSV.getD genDefault_tps_min_singular_val)))
+  let invl0 := (np.leftDot u0 keep0 (np.scaleRows (np.invSing s0 keep0) v0 keep0))
   let self0 := self.setCoef (np.dot invl0 (np.tr selfy0))
   self0
 
@@ -362,7 +376,7 @@ def genDefaultOpts : Opts :=
   { rotation := true, allowMirror := false, kernel := 0, minSV := ((1 : Rat) / 10000) }
 
 def genCopy (self : Obj Pts A) : Obj Pts A :=
-  let new0 := (blank self.cls self.source self.target : Obj Pts A)
+  let new0 := (blank ((ClsOf.mk self)).o.cls ((ClsOf.mk self)).o.source ((ClsOf.mk self)).o.target : Obj Pts A)
   let new1 := self
   let new0 := new1.setH ((Owned.mk new1.h)).m
   new0
@@ -377,7 +391,7 @@ def genPseudoinverse (inv : Mat → Mat) (self : Obj Pts A) : Obj Pts A :=
   selfcopy1
 
 def genPseudoinverse_ThinPlateSplines (np : Np Pts A) (e : Ext Pts A) (self : Obj Pts A) : Except PyExc (Obj Pts A) :=
-  let kernel0 := self.kernel
+  let kernel0 := ((KernelCls.mk self.kernel)).kind
   (genInit_ThinPlateSplines np e (blank .tps self.target self.source) self.target self.source kernel0 (self.minSV.getD genDefault_tps_min_singular_val))
 
 def genFromVector_Translation (e : Ext Pts A) (self : Obj Pts A) (p : Nat → Rat) : Obj Pts A :=
@@ -418,7 +432,7 @@ def genCompose_after (e : Ext Pts A) (self : Obj Pts A) (transform : Hom) : Exce
 def genProcrustesAlignment (pk : ProcK Pts) (nDims : Pts → Nat) (source target : Pts) (rotation : Bool := true) (allowmirror : Bool := false) : Mat :=
   let tgtt0 := (pk.negCentre target)
   let srct0 := (pk.negCentre source)
-  let srcs0 := (pk.scale source target (nDims source))
+  let srcs0 := (pk.scale ((RatioOf.mk ((NormOf.mk source)).n ((NormOf.mk target)).n)).src ((RatioOf.mk ((NormOf.mk source)).n ((NormOf.mk target)).n)).tgt (nDims source))
   let p0 := (pk.identity (nDims source))
   let p1 := pk.before p0 srct0
   let p0 := pk.before p1 srcs0
